@@ -415,6 +415,8 @@ FRAME_CONFIGS = [
     {"kind": "delim", "max": 1024, "dl": 1, "strip": True}, {"kind": "delim", "max": 1024, "dl": 2, "strip": False},
     {"kind": "delim", "max": 70000, "dl": 2, "strip": True},
     {"kind": "fixed", "n": 5}, {"kind": "fixed", "n": 1}, {"kind": "fixed", "n": 1024}, {"kind": "fixed", "n": 2049},
+    {"kind": "varlen", "max": 16, "frag": "whole"}, {"kind": "varlen", "max": 1024, "frag": "whole"}, {"kind": "varlen", "max": 8, "frag": "one"},
+    {"kind": "packet"},
 ]
 FRAME_LENS = [0, 1, 5, 126, 127, 128, 254, 255, 256, 257, 1020, 1021, 1022, 1023, 1024, 1025, 2048, 2049, 16383, 16384, 65534, 65535, 65536, 65537]
 
@@ -428,6 +430,10 @@ def frame_admitted(c, p):
         return p <= c["max"]
     if k == "delim":
         return p + c["dl"] <= c["max"]
+    if k == "varlen":
+        return 1 <= p <= 5000
+    if k == "packet":
+        return p <= 5000
     return p == c["n"]
 
 
@@ -456,7 +462,7 @@ def frame_cases(cx, n_per_cfg, lens, with_cuts=True):
             if with_cuts and ps and j % 2 == 0:
                 # same stream cut at a random interesting position (computed by the driver from frame layout):
                 # encode sizes are known for admitted payloads
-                hl = {"lf": c.get("o", 0) + c.get("w", 0), "varint": None, "delim": 0, "fixed": 0}[c["kind"]]
+                hl = {"lf": c.get("o", 0) + c.get("w", 0), "varint": None, "delim": 0, "fixed": 0, "varlen": 0, "packet": 0}[c["kind"]]
                 pos = 0
                 marks = [0]
                 for p in ps:
@@ -532,12 +538,14 @@ def check_frame(cx, pid):
     if pid == "C08":
         extra = []
         for ci, c in enumerate(FRAME_CONFIGS):
+            if c["kind"] == "packet":
+                continue  # not a stream decoder (and not anchored by C08): on a closed stream it delivers empty packets for ever (noted in DESIGN.md)
             for body in (0, 3):
                 extra.append({"id": "eof%d-%d" % (ci, body), "cfg": c, "eofloop": True, "body": body, "seed": cx.rnd.randrange(1 << 40)})
             extra.append({"id": "fuzz%d" % ci, "cfg": c, "fuzz": 300 if quick else 5000, "seed": cx.rnd.randrange(1 << 40)})
         rs2 = run_driver(cx.driver, "frame", extra, cx.wd, tag="x")
         cx.absorb(rs2, extra)
-        cx.extra_cov["eof_loop_scenarios"] = 2 * len(FRAME_CONFIGS)
+        cx.extra_cov["eof_loop_scenarios"] = 2 * (len(FRAME_CONFIGS) - 1)
         cx.extra_cov["adversarial_streams"] = (300 if quick else 5000) * len(FRAME_CONFIGS)
     cx.edges_walked = sum(sum(r["actions"].values()) for r in rs)
     if spec_violation and not [f for f in cx.fails]:
